@@ -20,7 +20,9 @@ def run(rep, kf, tier, seed):
     import contracts.param_conflicts as pc
     import contracts.registration as creg
     engine_b.discharge(rep, kf, [pc.conflicts_contract()] + creg.all_contracts(), "C09", tier, seed)
-    from props.common import run_bounded
+    from props.common import run_bounded, discharge_parallel
+    import contracts.enum_values as cev
+    discharge_parallel(rep, kf, [cev.values_contract()], "C09", tier, seed)
     run_bounded(rep, kf, "C09", ["param_conflicts", "model_properties", "enum_values", "name_collision"], tier)
     rep.trusted.extend(TRUSTED)
     rep.assumptions.extend([
